@@ -40,10 +40,19 @@ package ovsdb
 //@ func (RowUpdate).Delete
 //@ pure
 
+// FromRowUpdate2 (C07): old row as is; the new row as is or, for a modification
+// with columns that changed to their default value, a fresh copy completed with
+// those columns (content: bounded stand-in cache-mirrors-database); the rows of
+// ru2 themselves are never written.
 //@ func (*RowUpdate).FromRowUpdate2
 //@ requires r != nil
 //@ modifies r.Old, r.New
-//@ ensures r.Old == ru2.Old && r.New == ru2.New
+//@ ensures r.Old == ru2.Old
+//@ ensures ru2.Modify == nil || ru2.New == nil ==> r.New == ru2.New
+//@ ensures ru2.Modify != nil && ru2.New != nil ==> (r.New != nil && (r.New == ru2.New || fresh(r.New)))
+//@ loop 1 invariant r.Old == ru2.Old && r.New == ru2.New
+//@ loop 1 invariant full != nil ==> fresh(full)
+//@ loop 2 invariant full != nil && fresh(full) && r.Old == ru2.Old && r.New == ru2.New
 
 //@ func (TableSchema).Column
 //@ pure
